@@ -41,7 +41,7 @@ KINDS = {
     T_WRAP: ["oserror"],
     T_SETTIMEOUT: ["oserror", "valueerror"],
     T_CONNECT: ["refused", "timeout", "unreach", "overflow"],
-    T_SENDALL: ["reset", "brokenpipe", "timeout", "timeout_delivered"],
+    T_SENDALL: ["reset", "brokenpipe", "timeout", "timeout_delivered", "eintr_partial", "timeout_partial"],
     T_RECV: ["timeout", "reset", "eof", "eintr1", "eintr3", "eagain"],
     T_CLOSE: ["oserror"],
 }
@@ -76,8 +76,10 @@ def make_exc(kind):
         return ConnectionRefusedError(errno.ECONNREFUSED, "Connection refused (injected)")
     if kind == "unreach":
         return OSError(errno.ENETUNREACH, "Network is unreachable (injected)")
-    if kind in ("timeout", "timeout_delivered"):
+    if kind in ("timeout", "timeout_delivered", "timeout_partial"):
         return TimeoutError("timed out (injected)")
+    if kind == "eintr_partial":
+        return InterruptedError(errno.EINTR, "Interrupted system call after a partial write (injected)")
     if kind == "eagain":
         return BlockingIOError(errno.EAGAIN, "Resource temporarily unavailable (injected)")
     if kind == "reset":
@@ -450,8 +452,13 @@ class FakeSocket:
             if k == "timeout_delivered" or k in BASE_EXC_DELIVERED:
                 raise make_exc(k)
             return None     # kernel accepts the bytes; the peer is gone
+        if getattr(self, "partial_send_failed", False):
+            # nobody can know how much of the previous buffer went out: writing on is writing into the middle of a command
+            net.alarm("STALE_READ", "call %r writes %d more byte(s) on socket %d after a send that failed part-way (%r...): the "
+                      "stream is out of step with the server from here on" % (net.ctx.call, len(data), self.sid, bytes(data[:24])))
         if isinstance(k, str) and k.endswith("_partial"):
-            # only the first part of the request reaches the peer, then the interrupt is delivered
+            # only the first part of the request reaches the peer, then the error / interrupt is delivered
+            self.partial_send_failed = True
             part = bytes(data)[: max(1, len(data) // 2)]
             replies = self.session.feed(part, net.ctx.call)
             self.rx.extend([bytearray(r), tag] for r, tag, cmd in replies)
